@@ -65,6 +65,11 @@ func c19Cases(tier string, seed int64) []core.Case {
 				}})
 			}
 			rep, n := rep, n
+			if n == 2 {
+				cases = append(cases, core.Case{ID: fmt.Sprintf("client-tag-interface/%d", rep), Run: func(ctx *core.Ctx) core.Result {
+					return raceTag(ctx, rep)
+				}})
+			}
 			cases = append(cases, core.Case{ID: fmt.Sprintf("raw-pipelined-flush/n=%d/%d", n, rep), Run: func(ctx *core.Ctx) core.Result {
 				return raceRaw(ctx, n, rep)
 			}})
@@ -241,6 +246,110 @@ func raceUfs(ctx *core.Ctx, n int, logging bool, rep int) core.Result {
 	res.Count("unexpected_errors", int64(problems))
 	if rep == 0 {
 		res.Sample(map[string]interface{}{"workload": "shared client against Ufs", "goroutines": n, "iterations": iters, "logging": logging, "unexpected_errors": problems})
+	}
+	time.Sleep(5 * time.Millisecond)
+	return res
+}
+
+// raceTag: the client's pipelined Tag interface (requests complete on a goroutine of the library and are handed to the
+// application through a channel): walks, creates that succeed and creates that are refused, opens, reads, clunks,
+// each request on its own fid, two tags working side by side on one client.
+func raceTag(ctx *core.Ctx, rep int) core.Result {
+	var res core.Result
+	go9p.VerifSetHook(perturb)
+	root := filepath.Join(ctx.Scratch, fmt.Sprintf("c19tag-%d", ctx.Index))
+	_ = os.RemoveAll(root)
+	_ = os.MkdirAll(root, 0o755)
+	defer os.RemoveAll(root)
+	_ = os.WriteFile(filepath.Join(root, "exists"), []byte("already here"), 0o644)
+	ufs := new(go9p.Ufs)
+	ufs.Dotu = rep%2 == 0
+	ufs.Root = root
+	ufs.Id = "ufs"
+	if !ufs.Start(ufs) {
+		res.Inconclusive = "Ufs.Start failed"
+		return res
+	}
+	go9p.DefaultDebuglevel, go9p.DefaultLogger = 0, nil
+	a, b, err := socketpair()
+	if err != nil {
+		res.Inconclusive = err.Error()
+		return res
+	}
+	ufs.NewConn(b)
+	c, err := go9p.Connect(a, 8192, true)
+	if err != nil {
+		res.Inconclusive = err.Error()
+		return res
+	}
+	defer c.Unmount()
+	user := go9p.OsUsers.Uid2User(0)
+	rootFid, err := c.Attach(nil, user, "")
+	if err != nil {
+		res.Inconclusive = err.Error()
+		return res
+	}
+	var wg sync.WaitGroup
+	for g := 0; g < 2; g++ {
+		wg.Add(1)
+		go func(g int) {
+			defer wg.Done()
+			reqchan := make(chan *go9p.Req, 8)
+			tag := c.TagAlloc(reqchan)
+			wait := func() *go9p.Req {
+				select {
+				case r := <-reqchan:
+					return r
+				case <-time.After(10 * time.Second):
+					return nil
+				}
+			}
+			for round := 0; round < 20; round++ {
+				// a create that is refused (the name exists), on its own fid
+				f := c.FidAlloc()
+				if tag.Walk(rootFid, f, nil) != nil || wait() == nil {
+					return
+				}
+				if tag.Create(f, "exists", 0o644|go9p.DMDIR, go9p.OREAD, "") != nil || wait() == nil {
+					return
+				}
+				if tag.Clunk(f) != nil || wait() == nil {
+					return
+				}
+				// a create that succeeds, then a read and a clunk
+				f2 := c.FidAlloc()
+				if tag.Walk(rootFid, f2, nil) != nil || wait() == nil {
+					return
+				}
+				if tag.Create(f2, fmt.Sprintf("new-%d-%d", g, round), 0o644, go9p.ORDWR, "") != nil || wait() == nil {
+					return
+				}
+				if tag.Read(f2, 0, 16) != nil || wait() == nil {
+					return
+				}
+				if tag.Clunk(f2) != nil || wait() == nil {
+					return
+				}
+				// an open of the existing file
+				f3 := c.FidAlloc()
+				if tag.Walk(rootFid, f3, []string{"exists"}) != nil || wait() == nil {
+					return
+				}
+				if tag.Open(f3, go9p.OREAD) != nil || wait() == nil {
+					return
+				}
+				if tag.Clunk(f3) != nil || wait() == nil {
+					return
+				}
+			}
+			c.TagFree(tag)
+		}(g)
+	}
+	wg.Wait()
+	res.Evals = 2 * 20
+	res.Sig(fmt.Sprintf("tag-interface|rep=%d|dotu=%v", rep, ufs.Dotu))
+	if rep == 0 {
+		res.Sample(map[string]interface{}{"workload": "client Tag interface against Ufs", "goroutines": 2, "rounds": 20})
 	}
 	time.Sleep(5 * time.Millisecond)
 	return res
